@@ -963,11 +963,12 @@ parsec_list_nolock_chain_sort_mergesort(parsec_list_t *list,
     parsec_list_item_t *items, *p, *q, *e, *tail, *oldhead;
     int insize, nmerges, psize, qsize, i;
 
-    /* Remove the items from the list, and clean the list */
+    /* Turn the items of the list into a ring. The head and tail of the list
+     * are left pointing into the ring (they are set again once the items are
+     * sorted): operations that test emptiness without taking the lock must not
+     * see a non empty list as empty while it is being sorted. */
     items = parsec_list_item_ring((parsec_list_item_t*)_HEAD(list),
                                  (parsec_list_item_t*)_TAIL(list));
-    _HEAD(list) = _GHOST(list);
-    _TAIL(list) = _GHOST(list);
 
     insize = 1;
 
@@ -1040,7 +1041,12 @@ parsec_list_nolock_chain_sort_mergesort(parsec_list_t *list,
         /* Otherwise repeat, merging lists twice the size */
         insize *= 2;
     }
-    parsec_list_nolock_chain_front(list, items);
+    /* items is the sorted ring: make it the content of the list */
+    tail = (parsec_list_item_t*)items->list_prev;
+    items->list_prev = _GHOST(list);
+    tail->list_next = _GHOST(list);
+    _HEAD(list) = items;
+    _TAIL(list) = tail;
 }
 
 static inline void
